@@ -57,6 +57,10 @@ type scen struct {
 	span   int // ms between start and the stop request
 	prod   int // full: ms the producer runs first
 	xexec  int // full: the execution layer takes N ms per call (2N for SetFinal) and gives up with ctx.Err() when cancelled
+	daf    string // DA submission faults: "" none | reject (always "already in mempool") | flaky (rejected, then accepted, alternating) | error (generic error on two calls of three)
+	dabt   int    // DA block time ms (0 = the block time); the submitters' retry back-off is derived from it
+	ttl    int    // DA mempool TTL in DA blocks (0 = 1): a rejected submission is retried after dabt*ttl
+	gas    bool   // non-default gas configuration (price 1, multiplier 2): rejected submissions escalate the price
 }
 
 func (s scen) line() string {
@@ -67,6 +71,18 @@ func (s scen) line() string {
 	x := ""
 	if s.xexec > 0 {
 		x = fmt.Sprintf(" xexec=%d", s.xexec)
+	}
+	if s.daf != "" {
+		x += " daf=" + s.daf
+	}
+	if s.dabt > 0 {
+		x += fmt.Sprintf(" dabt=%d", s.dabt)
+	}
+	if s.ttl > 0 {
+		x += fmt.Sprintf(" ttl=%d", s.ttl)
+	}
+	if s.gas {
+		x += " gas=1"
 	}
 	return fmt.Sprintf("run mode=%s future=%d slow=%d lazy=%d bt=%d span=%d prod=%d%s", s.mode, s.future, s.slow, l, s.bt, s.span, s.prod, x)
 }
@@ -85,6 +101,12 @@ func Gen(r *hx.Rng, tier string, w io.Writer) {
 		scen{mode: "agg", bt: 50, span: 900, future: 300},   // start-up delay over before the stop
 		scen{mode: "full", bt: 50, span: 800, prod: 600},
 		scen{mode: "full", bt: 50, span: 700, prod: 500, slow: 40},
+		// the DA layer rejects every submission and the retry back-off (DA block time x mempool TTL) is far longer than the
+		// stop bound: the stop request falls INTO the back-off of both submission loops and must still be prompt
+		scen{mode: "agg", bt: 50, span: 600, daf: "reject", dabt: 60, ttl: 100},
+		// rejected, then accepted at an escalated gas price, with a non-default gas configuration: both submission
+		// loops and the includer touch the manager's gas settings concurrently (race detector)
+		scen{mode: "agg", bt: 40, span: 900, daf: "flaky", dabt: 20, gas: true},
 	)
 	n := 2
 	if tier == "thorough" {
@@ -105,6 +127,12 @@ func Gen(r *hx.Rng, tier string, w io.Writer) {
 		}
 		if r.Chance(35) {
 			s.slow = 20 + r.Intn(150)
+		}
+		if s.mode == "agg" && r.Chance(45) {
+			s.daf = []string{"reject", "flaky", "error"}[r.Intn(3)]
+			s.dabt = []int{10, 20, 60, 200}[r.Intn(4)]
+			s.ttl = []int{0, 1, 50, 200}[r.Intn(4)]
+			s.gas = r.Chance(60)
 		}
 		ss = append(ss, s)
 	}
@@ -241,6 +269,45 @@ func (d *slowDA) GetIDs(ctx context.Context, h uint64, ns []byte) (*coreda.GetID
 	return d.DA.GetIDs(ctx, h, ns)
 }
 
+// faultDA makes submissions fail by a pattern (its own state under a mutex); everything else goes to the double.
+type faultDA struct {
+	coreda.DA
+	mu   sync.Mutex
+	kind string
+	n    int
+}
+
+func (d *faultDA) fault() error {
+	d.mu.Lock()
+	defer d.mu.Unlock()
+	d.n++
+	switch d.kind {
+	case "reject":
+		return coreda.ErrTxAlreadyInMempool
+	case "flaky":
+		if d.n%2 == 1 {
+			return coreda.ErrTxAlreadyInMempool
+		}
+	case "error":
+		if d.n%3 != 0 {
+			return fmt.Errorf("da: connection refused")
+		}
+	}
+	return nil
+}
+func (d *faultDA) SubmitWithOptions(ctx context.Context, blobs []coreda.Blob, gp float64, ns []byte, o []byte) ([]coreda.ID, error) {
+	if err := d.fault(); err != nil {
+		return nil, err
+	}
+	return d.DA.SubmitWithOptions(ctx, blobs, gp, ns, o)
+}
+func (d *faultDA) Submit(ctx context.Context, blobs []coreda.Blob, gp float64, ns []byte) ([]coreda.ID, error) {
+	if err := d.fault(); err != nil {
+		return nil, err
+	}
+	return d.DA.Submit(ctx, blobs, gp, ns)
+}
+
 // ---------------------------------------------------------------- one real node
 
 type nodeEnv struct {
@@ -277,7 +344,16 @@ func newNode(s scen, aggregator bool, da *hx.DA, genesisTime time.Time) (*nodeEn
 	cfg.Node.LazyBlockInterval.Duration = time.Duration(4*s.bt) * time.Millisecond
 	cfg.Node.MaxPendingHeadersAndData = 100000
 	cfg.DA.BlockTime.Duration = time.Duration(s.bt) * time.Millisecond
+	if s.dabt > 0 {
+		cfg.DA.BlockTime.Duration = time.Duration(s.dabt) * time.Millisecond
+	}
 	cfg.DA.MempoolTTL = 1
+	if s.ttl > 0 {
+		cfg.DA.MempoolTTL = uint64(s.ttl)
+	}
+	if s.gas {
+		cfg.DA.GasPrice, cfg.DA.GasMultiplier = 1, 2
+	}
 	cfg.DA.StartHeight = 1
 	cfg.P2P.ListenAddress = "/ip4/127.0.0.1/tcp/0"
 	cfg.P2P.Peers = ""
@@ -299,6 +375,9 @@ func newNode(s scen, aggregator bool, da *hx.DA, genesisTime time.Time) (*nodeEn
 	var dal coreda.DA = da
 	if s.slow > 0 {
 		dal = &slowDA{DA: da, delay: time.Duration(s.slow) * time.Millisecond}
+	}
+	if s.daf != "" && aggregator {
+		dal = &faultDA{DA: dal, kind: s.daf}
 	}
 	n, err := node.NewNode(context.Background(), cfg, e.exec, &seqD{}, dal, sg, p2pc, e.gen, e.ds,
 		node.DefaultMetricsProvider(&ins), logging.Logger("verif-node"), node.NodeOptions{})
@@ -826,8 +905,12 @@ func runScenario(c *hx.Ctx, s scen) outcome {
 }
 
 func parseScen(o hx.Op) (scen, bool) {
-	s := scen{mode: o.Str("mode"), future: o.Int("future"), slow: o.Int("slow"), lazy: o.Bool("lazy"), bt: o.Int("bt"), span: o.Int("span"), prod: o.Int("prod"), xexec: o.Int("xexec")}
+	s := scen{mode: o.Str("mode"), future: o.Int("future"), slow: o.Int("slow"), lazy: o.Bool("lazy"), bt: o.Int("bt"), span: o.Int("span"), prod: o.Int("prod"), xexec: o.Int("xexec"),
+		daf: o.Str("daf"), dabt: o.Int("dabt"), ttl: o.Int("ttl"), gas: o.Bool("gas")}
 	if s.mode != "agg" && s.mode != "full" {
+		return s, false
+	}
+	if (s.daf != "" && s.daf != "reject" && s.daf != "flaky" && s.daf != "error") || s.dabt > 60000 || s.ttl > 1000 || (s.daf != "" && s.mode != "agg") {
 		return s, false
 	}
 	if s.bt < 10 || s.bt > 2000 || s.span < 50 || s.span > 20000 || s.future > 60000 || s.slow > 5000 {
